@@ -141,6 +141,18 @@ CHECKS = {
         "Trusted: the ~80-line rule evaluator; declared columns = columns of the materialised prefix.",
         "4/C26",
     ),
+    "C07": (
+        "metamorphic runtime monitor: four composition routes vs sequential application on Pandas; associativity; dom/cod",
+        "Pairs (a, b) and triples (a, b, c) of random pipelines - b generated data-aware over a table description of "
+        "exactly a's produced columns, with every operator kind (select_rows, map_columns with deletions, interior "
+        "order_rows, partition_by=1 windows, joins/concats whose other leg reads the boundary table or an original "
+        "table) - are composed through a >> b, DataOpArrow composition, replace_leaves and eval with a map of "
+        "pipelines. Every route must return, the composed pipeline's Pandas result must equal b evaluated on a's "
+        "materialised result, (a>>b)>>c and a>>(b>>c) must give the sequential result and compare equal, and dom()/cod() "
+        "of the composed pipeline/arrow must be the tables and columns it reads and produces.",
+        "Trusted: the Pandas executor for sequential application. a >> b is only exercised when b reads a single table.",
+        "4/C07",
+    ),
 }
 
 NOT_BUILT = "check not built yet (build in progress, see DESIGN.md section 8)"
